@@ -11,7 +11,7 @@ CONC = {"C03", "C04", "C16"}
 
 
 def dispatch(pid, tier, seed, replay):
-    if replay and json.load(open(replay)).get("driver") == "cfg-suite" and pid != "C20":
+    if replay and (json.load(open(replay)).get("driver") == "cfg-suite" and pid != "C20" or json.load(open(replay)).get("spec") == "CountTrace" and pid != "C20"):
         # a replay of a job against the memcrsd binary (counting hammer, memory-limit probe, connection scenarios)
         rc = props_more.run_srv(pid, tier, seed, replay)
         log("RESULT property=%s tier=%s exit=%d" % (pid, tier, rc))
